@@ -599,6 +599,8 @@ class RunningShow:
     def resume(self):
         """Resume paused show."""
         self.machine.show_controller.debug_log("Resuming show %s", self.show.name)
+        # the show might not be paused. do not leave a second timer chain behind which stop() cannot cancel
+        self._remove_delay_handler()
         self.next_step_time = self.machine.clock.get_time()
         self._run_next_step(post_events=self.show_config.events_when_resumed)
 
